@@ -114,7 +114,7 @@ def c18_marathon(seed, run, tier):
 
 
 def c18_gen(seed, run, tier):
-    if run % (700 if tier == "quick" else 400) == 7:
+    if run % (700 if tier == "quick" else 400) == 107:
         return c18_marathon(seed, run, tier)
     spec = gen_data.gen_spec("C18", seed, run, tier, gen_data.PROFILE_C18)
     trng = prng.stream(seed, "C18", run, "tenant")
